@@ -200,7 +200,7 @@ def run_family(repo, fam, log, extra_module=None):
         new = orig + "\n" + (extra_module or cfg["module"]) + "\n"
         open(os.path.join(tree, cfg["file"]), "w", encoding="utf-8").write(new)
         assert new.startswith(orig)
-        env = dict(os.environ, CARGO_NET_OFFLINE="true", CARGO_TARGET_DIR=os.path.join(repo, "target"))
+        env = dict(os.environ, CARGO_NET_OFFLINE="true", CARGO_TARGET_DIR=os.environ.get("CARGO_TARGET_DIR") or os.path.join(repo, "target"))
         t0 = time.time()
         p = subprocess.run(["cargo", "test", "--offline", "--lib", cfg["filter"], "--", "--nocapture", "--test-threads", "1"],
                            cwd=tree, capture_output=True, text=True, env=env, timeout=3600)
